@@ -10,22 +10,104 @@ let int_of_z = function Z0 -> 0 | Zpos p -> int_of_pos p | Zneg p -> - (int_of_p
 
 let split_on c s = if s = "" then [] else String.split_on_char c s
 
-let parse_box (s : string) : box =
-  match List.map int_of_string (String.split_on_char ',' s) with
-  | [a; b; c; d] -> { minx = z_of_int a; miny = z_of_int b; maxx = z_of_int c; maxy = z_of_int d }
-  | _ -> failwith ("bad box " ^ s)
+(* ---- ordinates: "c", "cps" (= c * 2^s lattice units, s > 0), "inf", "-inf" (a side of a query box) *)
+type ord = Fin of int * int | PInf | NInf
 
-let parse_items (s : string) : item list =
+let parse_ord (t : string) : ord =
+  match t with
+  | "inf" -> PInf
+  | "-inf" -> NInf
+  | _ ->
+    (match String.index_opt t 'p' with
+     | None -> Fin (int_of_string t, 0)
+     | Some i -> Fin (int_of_string (String.sub t 0 i),
+                      int_of_string (String.sub t (i + 1) (String.length t - i - 1))))
+
+(* the largest shift written anywhere on the case line: an infinite side is replaced by
+   +-2^(that + 64) lattice units, beyond every finite ordinate of the case (|c| < 2^53), which is
+   order-equivalent for a query box: the searches only compare it with item ordinates *)
+let max_shift (line : string) : int =
+  let m = ref 0 and n = String.length line in
+  let i = ref 0 in
+  while !i < n do
+    if line.[!i] = 'p' && !i + 1 < n && line.[!i + 1] >= '0' && line.[!i + 1] <= '9'
+       && !i > 0 && line.[!i - 1] >= '0' && line.[!i - 1] <= '9' then begin
+      let j = ref (!i + 1) and v = ref 0 in
+      while !j < n && line.[!j] >= '0' && line.[!j] <= '9' do
+        v := 10 * !v + Char.code line.[!j] - 48; incr j done;
+      if !v > !m then m := !v;
+      i := !j
+    end else incr i
+  done;
+  !m
+
+let inf_shift = ref 64
+(* binary exponent of the lattice unit of the current case (class suffix "@k") *)
+let cur_k = ref 0
+
+let rec shl_pos (p : positive) (s : int) : positive = if s <= 0 then p else shl_pos (XO p) (s - 1)
+let z_of_cs (c : int) (s : int) : z =
+  if c = 0 then Z0 else if c > 0 then Zpos (shl_pos (pos_of_int c) s) else Zneg (shl_pos (pos_of_int (-c)) s)
+let z_of_ord = function
+  | Fin (c, s) -> z_of_cs c s
+  | PInf -> z_of_cs 1 !inf_shift
+  | NInf -> z_of_cs (-1) !inf_shift
+(* the float64 the implementation was handed for this ordinate *)
+let float_of_ord = function
+  | Fin (c, s) -> if c = 0 then 0.0 else Float.ldexp (float_of_int c) (s + !cur_k)
+  | PInf -> Float.infinity
+  | NInf -> Float.neg_infinity
+
+(* canonical text of an integer of the model (odd part below 2^62, as for every value that is an
+   input ordinate) *)
+let z_str (v : z) : string =
+  let pos_str p =
+    let rec tz p n = match p with XO p' -> tz p' (n + 1) | _ -> (p, n) in
+    let rec bits p n = match p with XH -> n + 1 | XO p' | XI p' -> bits p' (n + 1) in
+    let (odd, n) = tz p 0 in
+    let b = bits odd 0 in
+    if b + n <= 61 then string_of_int (int_of_pos p)
+    else if b <= 61 then Printf.sprintf "%dp%d" (int_of_pos odd) n
+    else Printf.sprintf "<%d bits>" (b + n) in
+  match v with Z0 -> "0" | Zpos p -> pos_str p | Zneg p -> "-" ^ pos_str p
+
+(* a box: the model's box over Z (pre-image in lattice units) and the float64 box *)
+type fbox = { fminx : float; fminy : float; fmaxx : float; fmaxy : float }
+let parse_box_f (s : string) : box * fbox =
+  match List.map parse_ord (String.split_on_char ',' s) with
+  | [a; b; c; d] ->
+    ({ minx = z_of_ord a; miny = z_of_ord b; maxx = z_of_ord c; maxy = z_of_ord d },
+     { fminx = float_of_ord a; fminy = float_of_ord b; fmaxx = float_of_ord c; fmaxy = float_of_ord d })
+  | _ -> failwith ("bad box " ^ s)
+let parse_box (s : string) : box = fst (parse_box_f s)
+
+(* items with their float64 boxes (by record id) *)
+let parse_items_f (s : string) : (item * fbox) list =
   if s = "-" then [] else
     List.map (fun t ->
-        match List.map int_of_string (String.split_on_char ',' t) with
+        match String.split_on_char ',' t with
         | [a; b; c; d; id] ->
-          { ibox = { minx = z_of_int a; miny = z_of_int b; maxx = z_of_int c; maxy = z_of_int d };
-            iid = z_of_int id }
+          let (bz, bf) = parse_box_f (String.concat "," [a; b; c; d]) in
+          ({ ibox = bz; iid = z_of_int (int_of_string id) }, bf)
         | _ -> failwith ("bad item " ^ t)) (String.split_on_char ';' s)
 
 let box_str b =
-  Printf.sprintf "%d,%d,%d,%d" (int_of_z b.minx) (int_of_z b.miny) (int_of_z b.maxx) (int_of_z b.maxy)
+  Printf.sprintf "%s,%s,%s,%s" (z_str b.minx) (z_str b.miny) (z_str b.maxx) (z_str b.maxy)
+
+(* rtree/box.go:squaredEuclideanDistance evaluated in IEEE double arithmetic, as the implementation
+   does (fastMax(a, b) = if a > b then a else b; OCaml's float operations are the same IEEE
+   operations, not fused) *)
+let fast_max (a : float) (b : float) : float = if a > b then a else b
+let fkey (b : fbox) (q : fbox) : float =
+  let dx = fast_max 0.0 (fast_max (b.fminx -. q.fmaxx) (q.fminx -. b.fmaxx)) in
+  let dy = fast_max 0.0 (fast_max (b.fminy -. q.fmaxy) (q.fminy -. b.fmaxy)) in
+  dx *. dx +. dy *. dy
+
+(* set to true once the finding "PrioritySearch / Nearest order by a float64 squared distance that
+   underflows / overflows for ordinates below about 2^-538 / above 2^489" is an entry of
+   known_findings.json (check true_order_rounded_keys, detail starting "k=<exponent> "): the traces
+   counted as *_lost_to_rounding are then reported as FAIL lines (and matched as that finding) *)
+let strict_true_order = false
 
 (* the real tree as exported by rtree/verif_hooks.go:VerifDump *)
 exception Bad_dump of string
@@ -34,12 +116,10 @@ let parse_real_tree (s : string) : rtree =
   let next () = match !toks with [] -> raise (Bad_dump "eof") | t :: r -> toks := r; t in
   let num () =
     let t = next () in
-    match int_of_string_opt t with
-    | Some i -> z_of_int i
-    | None ->
-      let f = float_of_string t in
-      if Float.is_integer f && Float.abs f < 1e15 then z_of_int (int_of_float f)
-      else raise (Bad_dump ("non-integral ordinate " ^ t)) in
+    match parse_ord t with
+    | Fin (c, sh) -> z_of_cs c sh
+    | _ -> raise (Bad_dump ("infinite ordinate " ^ t))
+    | exception _ -> raise (Bad_dump ("non-integral ordinate " ^ t)) in
   let bx () = let a = num () in let b = num () in let c = num () in let d = num () in
     { minx = a; miny = b; maxx = c; maxy = d } in
   let rec node () : entry list =
@@ -74,8 +154,9 @@ let parse_ret (s : string) : result =
 let ret_str = function RNil -> "nil" | RErr e -> "e" ^ string_of_int (int_of_z e)
 
 let ids_sorted (v : item list) = List.sort compare (List.map (fun it -> int_of_z it.iid) v)
-let dists q (v : item list) = List.map (fun it -> int_of_z (sqdist it.ibox q)) v
+let dists q (v : item list) = List.map (fun it -> z_str (sqdist it.ibox q)) v
 let ints_str l = String.concat "," (List.map string_of_int l)
+let strs_str l = String.concat "," l
 
 let samples = ref 0
 
@@ -100,9 +181,32 @@ let () =
       let f = split_tabs line in
       let id = f.(0) and cls = f.(1) in
       incr cases;
-      let items = parse_items f.(2) in
+      (* class = [big:|mm:] layout [@k]: the case ran in units of 2^k *)
+      let (cls_base, k_exp) = match String.index_opt cls '@' with
+        | None -> (cls, 0)
+        | Some i -> (String.sub cls 0 i, int_of_string (String.sub cls (i + 1) (String.length cls - i - 1))) in
+      cur_k := k_exp;
+      inf_shift := max_shift line + 64;
+      let is_mm = String.length cls > 3 && String.sub cls 0 3 = "mm:" in
+      let items_f = parse_items_f f.(2) in
+      let items = List.map fst items_f in
       let n = List.length items in
-      count ("layout_" ^ cls);
+      count ("layout_" ^ cls_base);
+      if k_exp <> 0 then count "rescaled_populations";
+      (* float64 boxes by record id, and the largest lattice ordinate (for the exactness bound) *)
+      let ftbl = Hashtbl.create (2 * n + 1) in
+      List.iter (fun ((it : item), bf) -> Hashtbl.replace ftbl (int_of_z it.iid) bf) items_f;
+      let max_abs = ref 1 in
+      let scan_ords (str : string) =
+        List.iter (fun t -> match parse_ord t with
+            | Fin (c, _) -> if abs c > !max_abs then max_abs := abs c
+            | _ -> ()
+            | exception _ -> ()) (String.split_on_char ',' str) in
+      if f.(2) <> "-" then List.iter (fun t ->
+          match String.split_on_char ',' t with
+          | [a; b; c; d; _] -> scan_ords (String.concat "," [a; b; c; d])
+          | _ -> ()) (String.split_on_char ';' f.(2));
+      let items_max_abs = !max_abs in
       let tbl = Hashtbl.create (2 * n + 1) in
       List.iter (fun it -> Hashtbl.replace tbl (int_of_z it.iid) it) items;
       if Hashtbl.length tbl <> n then fail id "CORR" "harness_ids_not_distinct" "";
@@ -163,8 +267,27 @@ let () =
              | "i" -> count ("history_inner_" ^ kind)
              | "c" -> count ("history_concurrent_" ^ kind)
              | t -> failwith ("bad history tag " ^ t));
-            let q = parse_box qs in
+            let (q, qf) = parse_box_f qs in
             let k = int_of_string ks in
+            (* Are the implementation's float64 squared distances exact for this population and
+               query?  Uniformly rescaled lattice (no mixed magnitudes): gaps g < 2^b lattice units
+               with b = bits(2 * max |c|), squares g*g*2^(2k) are multiples of 2^-1074 when
+               2k >= -1074 and dx*dx + dy*dy < 2^(2b+1+2k) is finite when 2b+1+2k <= 1024; integers
+               below 2^53, so every intermediate is exact and the keys are the model's sqdist * 2^(2k):
+               same order, same ties.  Otherwise ("rounded keys") the order clause of the
+               statement is evaluated as: x may come before y when the TRUE distances say so or
+               the float64 keys, recomputed here in IEEE double arithmetic, say so. *)
+            max_abs := items_max_abs; scan_ords qs;
+            let nbits v = let rec go v b = if v = 0 then b else go (v lsr 1) (b + 1) in go v 0 in
+            let b2 = nbits (2 * !max_abs) in
+            let exact_keys = not is_mm && 2 * k_exp >= -1074 && 2 * b2 + 1 + 2 * k_exp <= 1024 && b2 <= 26 in
+            let fk_memo : (int, float) Hashtbl.t = Hashtbl.create 16 in
+            let fk (it : item) : float =
+              let i = int_of_z it.iid in
+              match Hashtbl.find_opt fk_memo i with
+              | Some v -> v
+              | None -> let v = fkey (Hashtbl.find ftbl i) qf in Hashtbl.replace fk_memo i v; v in
+            let le_rounded = le_or q (fun x y -> fk x <= fk y) in
             let sid = id ^ "/" ^ kind0 ^ ":" ^ qs ^ ":" ^ ks ^ ":" ^ acts in
             note_case (Digest.string (key0 ^ s)) (n > 0);
             let go_ids = List.map int_of_string (split_on ',' idss) in
@@ -207,6 +330,22 @@ let () =
                   Printf.printf "SAMPLE\tcase %s n=%d RangeSearch q=%s script=Continue^%d.%s -> impl visits [%s] ret %s; model visits [%s] ret %s; range_ok=true\n"
                     id n qs k acts idss rets (ints_str (List.map (fun it -> int_of_z it.iid) mv)) (ret_str mret)
                 end
+              | "P" when not exact_keys ->
+                count "priority_searches";
+                count "prio_rounded_keys";
+                let a = parse_act acts in
+                let cb = script (nat_of_int k) a in
+                let go_ret = parse_ret rets in
+                if k < List.length go_vis - 1 || k < n - 1 then count ("prio_stopped_" ^ String.make 1 acts.[0]) else count "prio_full";
+                let fks () = strs_str (List.map (fun it -> Printf.sprintf "%h" (fk it)) go_vis) in
+                if not (prio_ok_rel le_rounded items cb go_vis go_ret) then
+                  fail id "SPEC" "prio_ok" (trunc (Printf.sprintf "%s k=%d rounded keys ret=%s calls=%d visits=%s float_keys=%s" sid k_exp rets (List.length go_ids) idss (fks ())))
+                else if not is_mm && not (prio_ok items q cb go_vis go_ret) then begin
+                  (* in the order of the rounded keys, not in the order of the true distances *)
+                  count "prio_true_order_lost_to_rounding";
+                  if strict_true_order then
+                    fail id "SPEC" "true_order_rounded_keys" (trunc (Printf.sprintf "k=%d %s ret=%s visits=%s dists=%s float_keys=%s" k_exp sid rets idss (strs_str (dists q go_vis)) (fks ())))
+                end
               | "P" ->
                 count "priority_searches";
                 let a = parse_act acts in
@@ -235,15 +374,37 @@ let () =
                    end;
                    if k < List.length mv then count ("prio_stopped_" ^ String.make 1 acts.[0]) else count "prio_full";
                    if dists q mv <> dists q go_vis then
-                     fail id "CORR" "prio_distances" (trunc (sid ^ " model=" ^ ints_str (dists q mv) ^ " impl=" ^ ints_str (dists q go_vis)));
+                     fail id "CORR" "prio_distances" (trunc (sid ^ " model=" ^ strs_str (dists q mv) ^ " impl=" ^ strs_str (dists q go_vis)));
                    if mret <> go_ret then fail id "CORR" "prio_ret" (sid ^ " model=" ^ ret_str mret ^ " impl=" ^ rets);
                    if !samples < 5 && !samples >= 3 && n >= 5 && k < List.length mv then begin
                      incr samples;
                      Printf.printf "SAMPLE\tcase %s n=%d PrioritySearch q=%s script=Continue^%d.%s -> impl visits [%s] distances [%s] ret %s; model distances [%s]; prio_ok=true\n"
-                       id n qs k acts idss (ints_str (dists q go_vis)) rets (ints_str (dists q mv))
+                       id n qs k acts idss (strs_str (dists q go_vis)) rets (strs_str (dists q mv))
                    end);
+                (* the float64 keys are exact here: the recomputed keys must order the records as the
+                   model's integers do (a check of the driver's own float arithmetic and exactness bound) *)
+                if k_exp <> 0 && not (prio_ok_rel (fun x y -> fk x <= fk y) items cb go_vis go_ret) then
+                  fail id "CORR" "float_keys_not_exact" (sid ^ " k=" ^ string_of_int k_exp);
                 if not (prio_ok items q cb go_vis go_ret) then
-                  fail id "SPEC" "prio_ok" (trunc (Printf.sprintf "%s ret=%s calls=%d visits=%s dists=%s" sid rets (List.length go_ids) idss (ints_str (dists q go_vis))))
+                  fail id "SPEC" "prio_ok" (trunc (Printf.sprintf "%s ret=%s calls=%d visits=%s dists=%s" sid rets (List.length go_ids) idss (strs_str (dists q go_vis))))
+              | "N" when not exact_keys ->
+                count "nearest";
+                count "nearest_rounded_keys";
+                let go_r = match rets, go_vis with
+                  | "found", [x] -> Some x
+                  | _ -> None in
+                if rets = "panic" then fail id "SPEC" "nearest_ok" (sid ^ " ret=panic")
+                else if not (nearest_ok_rel le_rounded items go_r) then
+                  fail id "SPEC" "nearest_ok" (Printf.sprintf "%s k=%d rounded keys ret=%s id=%s" sid k_exp rets idss)
+                else if not is_mm && not (nearest_ok items q go_r) then begin
+                  count "nearest_true_min_lost_to_rounding";
+                  (match go_r with
+                   | Some x when not (overlap x.ibox q) && List.exists (fun (y : item) -> overlap y.ibox q) items ->
+                     count "nearest_misses_an_overlapping_record"
+                   | _ -> ());
+                  if strict_true_order then
+                    fail id "SPEC" "true_order_rounded_keys" (Printf.sprintf "k=%d %s ret=%s id=%s" k_exp sid rets idss)
+                end
               | "N" ->
                 count "nearest";
                 let go_r = match rets, go_vis with
@@ -256,7 +417,7 @@ let () =
                    (if n <= 1000 || (spec_only && real <> None) then
                       let i = function None -> "none" | Some (x : item) -> string_of_int (int_of_z x.iid) in
                       if i mr <> i go_r then fail id "CORR" "nearest_id" (sid ^ " model=" ^ i mr ^ " impl=" ^ i go_r));
-                   let d = function None -> "none" | Some (x : item) -> string_of_int (int_of_z (sqdist x.ibox q)) in
+                   let d = function None -> "none" | Some (x : item) -> z_str (sqdist x.ibox q) in
                    if d mr <> d go_r then fail id "CORR" "nearest_distance" (sid ^ " model=" ^ d mr ^ " impl=" ^ d go_r));
                 if not (nearest_ok items q go_r) then
                   fail id "SPEC" "nearest_ok" (sid ^ " ret=" ^ rets ^ " id=" ^ idss)
